@@ -317,7 +317,9 @@ def impl_apply(s, op, h=None):
         elif how == "data-id":
             sel = cont[sel].data.id
         del cont[sel]
-        s.forget(path + [op[2], op[4]] if not isinstance(op[4], int) else path)
+        # handles of the deleted member are not governed any more; deleted by position: every member of that
+        # container is forgotten (the handle of the PARENT is kept: it must keep working)
+        s.forget(path + [op[2], op[4]] if not isinstance(op[4], int) else path + [op[2]])
     elif kind == "write":
         da = s.resolve(path, h)
         if op[2] == "all":
